@@ -119,10 +119,10 @@ PROPS = {
             # the model is bound to the real validators at every export observation (T_C09_ValidatorModel)
             dict(family="eco", mc=[("credits_q", 120), ("roles_q", 120), ("bridge_q", 200), ("market_q", 300), ("basket_q", 600)],
                  mc_t=[("credits_t", 600), ("roles_t", 600), ("bridge_t", 900), ("market_q", 600), ("basket_t", 1500)],
-                 inv=["C09_ValidGenesis"], step=[], tinv=["T_C09_RoundTrip", "T_C09_ValidatorModel"], tstep=["T_C09_SameState"], observers="export"),
+                 inv=["C09_ValidGenesis"], inv_on_traces=False, step=[], tinv=["T_C09_RoundTrip"], note_inv=["T_C09_ValidatorModel"], tstep=["T_C09_SameState"], observers="export"),
             dict(family="data", mc_module="MC_Data", trace_module="TraceData", mc=[("data_res_q", 300)], mc_t=[("data_res_q", 300)],
-                 inv=["C09_DataValidGenesis"], step=[],
-                 tinv=["T_C09_RoundTrip", "T_C09_ValidatorModel"], tstep=["T_C09_SameState"], observers="export",
+                 inv=["C09_DataValidGenesis"], inv_on_traces=False, step=[],
+                 tinv=["T_C09_RoundTrip"], note_inv=["T_C09_ValidatorModel"], tstep=["T_C09_SameState"], observers="export",
                  gen=[("data_inj_q", 16, 20), ("data_buckets_q", 8, 20)], gen_t=[("data_inj_q", 100, 25), ("data_buckets_q", 60, 25)]),
         ],
     ),
